@@ -63,8 +63,11 @@ WBegin(i, ctxdone, t) ==
     /\ st' = [st EXCEPT ![i] = "running"]
     /\ UNCHANGED <<items, kind, hasStopFn, stopCalled, atStop, fn, offline, lastT, expectPanic, reported, failing, againT, needAgain, again, backoff, depSt>>
 
-WEnd(i, t) ==
+\* ctxdone: the context the item was handed is cancelled when it returns.  Once the stop routine has been invoked the
+\* context of every piece of work of the module is cancelled - also of work that was started before the module was
+WEnd(i, ctxdone, t) ==
     /\ i \in items /\ st[i] = "running"
+    /\ (hasStopFn /\ fn # "none") => ctxdone
     /\ st' = [st EXCEPT ![i] = "ended"]
     /\ lastT' = Max(lastT, t)
     \* a failed service worker is restarted after its back-off
